@@ -48,7 +48,9 @@ fn qm(m: &[Vec<f64>]) -> Vec<Vec<Q>> {
 fn arr2(m: &[Vec<f64>]) -> Array2<f64> {
     let r = m.len();
     let c = m[0].len();
-    let mut a = Array2::<f64>::zeros((r, c));
+    use ndarray::ShapeBuilder;
+    // column-major storage when the case asks for it (see run)
+    let mut a = if super::c10::FORTRAN.with(|f| f.get()) { Array2::<f64>::zeros((r, c).f()) } else { Array2::<f64>::zeros((r, c)) };
     for i in 0..r {
         for j in 0..c {
             a[[i, j]] = m[i][j];
@@ -207,7 +209,16 @@ fn check_transform(sys: &Sys, tier: Tier) -> CaseOut {
     }
     // apply_pre with square and non-square maps k -> n
     let maps: Vec<(Vec<Vec<f64>>, Vec<f64>)> = if n == 1 {
-        vec![(vec![vec![2.0]], vec![1.0]), (vec![vec![-1.0]], vec![0.5]), (vec![vec![1.0, -1.0]], vec![0.0]), (vec![vec![0.0]], vec![1.0]), (vec![vec![0.5, 2.0, -1.0]], vec![-1.0])]
+        vec![
+            (vec![vec![2.0]], vec![1.0]),
+            (vec![vec![-1.0]], vec![0.5]),
+            (vec![vec![1.0, -1.0]], vec![0.0]),
+            (vec![vec![0.0]], vec![1.0]),
+            (vec![vec![0.5, 2.0, -1.0]], vec![-1.0]),
+            // structured maps: pure translation, identity
+            (vec![vec![1.0]], vec![1.5]),
+            (vec![vec![1.0]], vec![0.0]),
+        ]
     } else if n == 2 {
         vec![
             (vec![vec![1.0, 1.0], vec![0.0, 2.0]], vec![0.0, -1.0]),
@@ -215,9 +226,18 @@ fn check_transform(sys: &Sys, tier: Tier) -> CaseOut {
             (vec![vec![1.0], vec![-2.0]], vec![0.5, 0.0]),
             (vec![vec![1.0, 0.0, 1.0], vec![0.0, 1.0, -1.0]], vec![0.0, 1.0]),
             (vec![vec![0.0, 0.0], vec![0.0, 0.0]], vec![1.0, 1.0]),
+            // structured maps: pure translation, identity, scaling, rectangular "identity"
+            (vec![vec![1.0, 0.0], vec![0.0, 1.0]], vec![1.0, -0.5]),
+            (vec![vec![1.0, 0.0], vec![0.0, 1.0]], vec![0.0, 0.0]),
+            (vec![vec![2.0, 0.0], vec![0.0, -1.0]], vec![0.5, 1.0]),
+            (vec![vec![1.0, 0.0, 0.0], vec![0.0, 1.0, 0.0]], vec![1.0, 2.0]),
         ]
     } else {
-        vec![(vec![vec![1.0, 0.0, 0.0], vec![0.0, 0.0, 1.0], vec![0.0, -1.0, 0.0]], vec![0.0, 1.0, 0.0]), (vec![vec![1.0], vec![1.0], vec![-1.0]], vec![0.0, 0.0, 1.0])]
+        vec![
+            (vec![vec![1.0, 0.0, 0.0], vec![0.0, 0.0, 1.0], vec![0.0, -1.0, 0.0]], vec![0.0, 1.0, 0.0]),
+            (vec![vec![1.0], vec![1.0], vec![-1.0]], vec![0.0, 0.0, 1.0]),
+            (vec![vec![1.0, 0.0, 0.0], vec![0.0, 1.0, 0.0], vec![0.0, 0.0, 1.0]], vec![1.0, -1.0, 0.5]),
+        ]
     };
     for (m, c) in &maps {
         out.add("evaluations", 1);
@@ -509,21 +529,37 @@ pub fn cases(tier: Tier) -> Vec<Case> {
 pub fn run(tier: Tier) -> Report {
     let mut rep = Report::new("C14", tier, "exploration");
     let cs = cases(tier);
-    let total = par_cases(&cs, |_, c| match c {
-        Case::Transform(s) => check_transform(s, tier),
+    let total = par_cases(&cs, |i, c| match c {
+        Case::Transform(s) => {
+            let mut o = check_transform(s, tier);
+            // every 2nd system with a matrix of at least 2x2 once more with column-major storage of the polytope,
+            // of the second operands and of the maps
+            if s.n >= 2 && s.rows.len() >= 2 && i % 2 == 0 {
+                super::c10::FORTRAN.with(|f| f.set(true));
+                let mut o2 = check_transform(s, tier);
+                super::c10::FORTRAN.with(|f| f.set(false));
+                for v in o2.violations.iter_mut() {
+                    v.tags.insert("storage".into(), "column_major".into());
+                }
+                o2.vcount = o2.vcount.into_iter().map(|(k, c)| (format!("{k}+cm"), c)).collect();
+                o.add("systems_column_major", 1);
+                o.merge(o2);
+            }
+            o
+        }
         Case::Constructors(d) => check_constructors(*d),
     });
     rep.set("cases_total", cs.len() as u64);
     if let Some(Case::Transform(s)) = cs.get(cs.len() / 2) {
-        rep.samples.push(json!({"n": s.n, "rows_A_b": s.rows, "checked": ["contains/distance on a 7^n lattice", "translate x 4^n directions", "intersection(_n)", "apply_pre x 5 maps", "apply_post / rotate x invertible dyadic matrices"]}));
+        rep.samples.push(json!({"n": s.n, "rows_A_b": s.rows, "checked": ["contains/distance on a 7^n lattice", "translate x 4^n directions", "intersection(_n)", "apply_pre x 5-9 maps incl. pure translations", "apply_post / rotate x invertible dyadic matrices"]}));
     }
     rep.absorb(total);
     let nt = rep.coverage.get("systems_nontrivial").and_then(|v| v.as_u64()).unwrap_or(0);
     rep.set("distinct_nontrivial", nt);
     rep.set("rule", "polytopes: every ordered row list over the coefficient/bias alphabets; per polytope every listed argument (lattice points, translation vectors, affine maps k->n, invertible matrices with dyadic inverse, signed permutations); constructors for every dimension with every axis / bound pair incl. +-inf; one evaluation per (object, argument); non-trivial = polytope with a non-zero row, or a constructor case");
     rep.set("bound", match tier {
-        Tier::Quick => "n=1: m<=3 rows; n=2: m<=2, every 3rd system with m=3; n=3: every 9th with m=2; constructors dim 1..4",
-        Tier::Thorough => "n=1: m<=3; n=2: m<=3; n=3: every 2nd with m=2; constructors dim 1..5",
+        Tier::Quick => "n=1: m<=3 rows; n=2: m<=2, every 3rd system with m=3; n=3: every 9th with m=2; constructors dim 1..4; systems with a matrix of at least 2x2: every 2nd once more with column-major storage",
+        Tier::Thorough => "n=1: m<=3; n=2: m<=3; n=3: every 2nd with m=2; constructors dim 1..5; systems with a matrix of at least 2x2: every 2nd once more with column-major storage",
     });
     rep.assume("set equality by exact mutual inclusion; contains bound to exact membership within 1e-8; simplex (irrational vertex) judged away from its boundary (margin 1e-6) through barycentric coordinates; 3-4-5 rotation judged on lattice points with margin 1e-6");
     rep
